@@ -24,7 +24,7 @@ TRUSTED PART 1 -- semantics chosen by this tool
   * `it.collect()` into a `Vec` = `SeamIter.collect` (the items of the lazy iterator in order; a panicking pull is a panic);
     `self.0.iter().filter(move |m| c)` = stage 4b's `Iter.filter` over `Iter.ofList`; `v[..]` / `v.as_slice()` = the list.
   * `match <slice> { [] => .., [x] => .., [x, ..] => .., _ => .. }`: ONE Lean `match` on the list with the arms in SOURCE order
-    (first match wins in both languages; `[x, ..]` is `x :: _`).  A `match` must be the LAST statement of its block.
+    (first match wins in both languages; `[x, ..]` is `x :: _`; there must be a `_` arm, or `[]` together with `[x, ..]`).  A `match` must be the LAST statement of its block.
 TRUSTED PART 2 -- the tables `PRELUDE`, `EXTERNS` (Rust signature + head line of the committed generated definition), `TEXT_CHECKS`.
 
 Anything outside the subset: `TIE-BROKEN rs2lean_seams: <reason>`, exit 2.
@@ -595,8 +595,9 @@ class Em:
                 lines = self.stmts(body, env2, muts, ind + "    ", ctx, mode)
                 lines[-1] += ")"
                 out.extend(lines)
-            if not seen_wild:
-                self.bad(ln, "slice `match` without a `_` arm")
+            kinds = {pat[0] for pat, _ in arms}
+            if not seen_wild and not {"nil", "cons"} <= kinds:
+                self.bad(ln, "slice `match` that is not visibly exhaustive (`_` arm, or `[]` together with `[x, ..]`)")
             return out
         if k == "for":
             _, x, it, body, ln = s
